@@ -15,7 +15,7 @@ Alignment::new(transform of the MINIMISED problem, residuals of the MINIMISED pr
 are private and never written after construction.
 params() returns the stored parameter vector that set_params wrote (2D and 3D); from_initial goes through RotationMatrices::from_rotation =
 from_euler(to_wpr(to_matrix(q))) on every path (rule shared with C08).
-Every minimize runs LevenbergMarquardt::new() with its default tolerances (shared with C09)."""
+Every minimize runs LevenbergMarquardt::new() with its default tolerances (shared with C09). Round 5 (shared with C08): RcParams::set writes x exactly once and as given (no clamping of Euler angles); from_euler builds the three elementary rotations from the angles as given."""
 NOT_DECIDED = "convergence, basin of attraction, that the final residual sum is not larger than at the start, optimality"
 ASSUMPTIONS = ["levenberg_marquardt::minimize returns the problem in the state of its last set_params"]
 
